@@ -48,6 +48,8 @@ type Report struct {
 	NSync      int      `json:"n_sync_sites"`
 	OrderSeams []string `json:"order_seams"`
 	Unseamed   []string `json:"unseamed_order_sites"`
+	ClockSeams []string `json:"clock_seams"`
+	RandSeams  []string `json:"rand_seams"`
 	Unmodelled []string `json:"unmodelled_blocking_sites"`
 	Modelled   []string `json:"modelled_blocking_sites"`
 	Packages   []string `json:"packages"`
@@ -60,6 +62,7 @@ type pendingChild struct {
 }
 
 type rw struct {
+	touched map[string]bool // imports whose uses were (partly) rewritten away
 	pending []pendingChild
 	fset    *token.FileSet
 	info    *types.Info
@@ -110,7 +113,7 @@ func Instrument(dir string, simDir string, env []string) (*Report, error) {
 			if strings.HasSuffix(name, "_test.go") || !strings.HasPrefix(name, dir) {
 				continue
 			}
-			r := &rw{fset: fset, info: p.TypesInfo, pkg: p, rep: rep, file: filepath.Base(name)}
+			r := &rw{fset: fset, info: p.TypesInfo, pkg: p, rep: rep, file: filepath.Base(name), touched: map[string]bool{}}
 			if err := r.rewriteFile(f, name); err != nil {
 				return nil, err
 			}
@@ -241,6 +244,11 @@ func (r *rw) rewriteFile(f *ast.File, path string) error {
 	}
 	r.pending = nil
 	astutil.AddNamedImport(r.fset, f, "verifsim", SimImport)
+	for path := range r.touched {
+		if !astutil.UsesImport(f, path) {
+			astutil.DeleteImport(r.fset, f, path)
+		}
+	}
 
 	var out bytes.Buffer
 	src, err := os.ReadFile(path)
@@ -357,6 +365,31 @@ func (r *rw) exprSeams(b *ast.BlockStmt) {
 			sel, ok := n.Fun.(*ast.SelectorExpr)
 			if !ok {
 				return true
+			}
+			// package-level functions of time and math/rand: clock and randomness seams
+			if id, ok := sel.X.(*ast.Ident); ok {
+				if pn, ok := r.info.Uses[id].(*types.PkgName); ok {
+					switch pn.Imported().Path() {
+					case "time":
+						switch sel.Sel.Name {
+						case "Now", "Since", "Until", "Sleep":
+							r.rep.ClockSeams = append(r.rep.ClockSeams, "time."+sel.Sel.Name+" at "+r.where(n.Pos()))
+							n.Fun = &ast.SelectorExpr{X: ast.NewIdent("verifsim"), Sel: ast.NewIdent(sel.Sel.Name)}
+							r.touched["time"] = true
+						case "After", "Tick", "NewTimer", "NewTicker", "AfterFunc":
+							r.rep.Unmodelled = append(r.rep.Unmodelled, "time."+sel.Sel.Name+" at "+r.where(n.Pos()))
+						}
+						return true
+					case "math/rand":
+						switch sel.Sel.Name {
+						case "Uint64", "Uint32", "Int63", "Int31", "Int", "Float64", "Float32", "Intn", "Int63n", "Int31n", "Perm", "Shuffle", "Seed":
+							r.rep.RandSeams = append(r.rep.RandSeams, "rand."+sel.Sel.Name+" at "+r.where(n.Pos()))
+							n.Fun = &ast.SelectorExpr{X: ast.NewIdent("verifsim"), Sel: ast.NewIdent("Rand" + sel.Sel.Name)}
+							r.touched["math/rand"] = true
+						}
+						return true
+					}
+				}
 			}
 			selection := r.info.Selections[sel]
 			if selection != nil && selection.Kind() == types.MethodExpr && len(n.Args) == 1 {
